@@ -17,8 +17,9 @@ package db
 // fcntl(F_SETLK / F_GETLK) on the database file. cmd: F_GETLK = 5, F_SETLK = 6; type: F_RDLCK = 0,
 // F_WRLCK = 1, F_UNLCK = 2 (linux). Anything outside the five listed uses leaves the lock state unknown.
 //@ extern golang.org/x/sys/unix.FcntlFlock
-//@   modifies lk_shared lk_pending golang.org/x/sys/unix.Flock_t.Type
+//@   modifies lk_shared lk_pending peer_state golang.org/x/sys/unix.Flock_t.Type
 //@   requires lk != nil
+//@   ensures [stable] peer_stable ==> peer_state == old(peer_state)
 //@   ensures [pending-lock] cmd == 6 && old(lk.Type) == 0 && lk.Whence == 0 && lk.Start == 1073741824 && lk.Len == 1 ==> (err == nil <==> peer_state < 3) && (err == nil ==> lk_pending) && (err != nil ==> lk_pending == old(lk_pending)) && lk_shared == old(lk_shared) && lk.Type == old(lk.Type)
 //@   ensures [shared-lock] cmd == 6 && old(lk.Type) == 0 && lk.Whence == 0 && lk.Start == 1073741826 && lk.Len == 510 && old(lk_pending) ==> (err == nil <==> peer_state < 4) && (err == nil ==> lk_shared) && (err != nil ==> lk_shared == old(lk_shared)) && lk_pending == old(lk_pending) && lk.Type == old(lk.Type)
 //@   ensures [pending-unlock] cmd == 6 && old(lk.Type) == 2 && lk.Whence == 0 && lk.Start == 1073741824 && lk.Len == 1 ==> !lk_pending && lk_shared == old(lk_shared) && lk.Type == old(lk.Type)
@@ -84,25 +85,26 @@ package db
 
 //@ func (*db.filePager).RLock
 //@   props C06 C07
-//@   modifies lk_shared lk_pending db.filePager.readLock golang.org/x/sys/unix.Flock_t.Type golang.org/x/sys/unix.Flock_t.Whence golang.org/x/sys/unix.Flock_t.Start golang.org/x/sys/unix.Flock_t.Len golang.org/x/sys/unix.Flock_t.Pid alloc
+//@   modifies lk_shared lk_pending peer_state db.filePager.readLock golang.org/x/sys/unix.Flock_t.Type golang.org/x/sys/unix.Flock_t.Whence golang.org/x/sys/unix.Flock_t.Start golang.org/x/sys/unix.Flock_t.Len golang.org/x/sys/unix.Flock_t.Pid alloc
 //@   requires f != nil && !lk_pending
 //@   ensures [held] err == nil ==> lk_shared && !lk_pending
 //@   ensures [failed] err != nil ==> lk_shared == old(lk_shared) && !lk_pending
-//@   ensures [yield] peer_state >= 3 ==> err != nil
-//@   ensures [admit] peer_state <= 2 && !old(lk_shared) ==> err == nil
+//@   ensures [yield] peer_stable && old(peer_state) >= 3 ==> err != nil
+//@   ensures [admit] peer_stable && old(peer_state) <= 2 && !old(lk_shared) ==> err == nil
 
 //@ func (*db.filePager).RUnlock
 //@   props C06
-//@   modifies lk_shared db.filePager.readLock golang.org/x/sys/unix.Flock_t.Type
+//@   modifies lk_shared peer_state db.filePager.readLock golang.org/x/sys/unix.Flock_t.Type
 //@   requires f != nil
 //@   ensures [released] !lk_shared
 //@   ensures [pending] lk_pending == old(lk_pending)
 
 //@ func (*db.filePager).CheckReservedLock
 //@   props C07 C09
-//@   modifies alloc golang.org/x/sys/unix.Flock_t.Type golang.org/x/sys/unix.Flock_t.Whence golang.org/x/sys/unix.Flock_t.Start golang.org/x/sys/unix.Flock_t.Len golang.org/x/sys/unix.Flock_t.Pid
+//@   modifies alloc peer_state golang.org/x/sys/unix.Flock_t.Type golang.org/x/sys/unix.Flock_t.Whence golang.org/x/sys/unix.Flock_t.Start golang.org/x/sys/unix.Flock_t.Len golang.org/x/sys/unix.Flock_t.Pid
 //@   requires f != nil
 //@   ensures [probe] err == nil && (r0 <==> peer_state >= 2)
+//@   ensures [stable] peer_stable ==> peer_state == old(peer_state)
 
 // page: a fresh buffer of one page; the lock state is not touched (no descriptor is opened or closed).
 //@ func (*db.filePager).page
